@@ -30,8 +30,8 @@ type OpKind uint8
 
 // I/O call kinds.
 const (
-	OpOpen OpKind = iota // open an existing file / open-or-create a block file
-	OpCreate             // create-or-truncate (leveldb)
+	OpOpen   OpKind = iota // open an existing file / open-or-create a block file
+	OpCreate               // create-or-truncate (leveldb)
 	OpRead
 	OpWrite
 	OpSync
